@@ -64,7 +64,7 @@ func (s *algoSUT) register() int {
 func newAlgoSUT(r *rng, algo, wrap string) *algoSUT {
 	s := &algoSUT{reg: newRecordingRegistry(), notes: map[int][]int{}}
 	c := algoCfg{Algo: algo, Wrap: wrap, Name: "verif", Ceil: -1, Floor: 1, BDen: 1}
-	smooths := []float64{1, 0.5, 0.25, 0.2}
+	smooths := []float64{1, 0.5, 0.25, 0.2, 0.3, 0.15, 0.7, 0.9} // non-dyadic ones too: rounding at the clamps differs
 	switch algo {
 	case "aimd":
 		c.Initial = r.between(1, 40)
@@ -75,7 +75,7 @@ func newAlgoSUT(r *rng, algo, wrap string) *algoSUT {
 	case "vegas":
 		c.Initial = r.between(1, 60)
 		c.Ceil = []int{20, 120, 300, 1000}[r.intn(4)]
-		s.smoothing = smooths[r.intn(4)]
+		s.smoothing = smooths[r.intn(len(smooths))]
 		mult := []int{4, 10, 30}[r.intn(3)] // C07 and C15 are jointly satisfiable only if probing leaves room for an update between probes (multiplier >= 4)
 		c.ProbeMax = -1                     // bound = multiplier x largest estimate seen, computed by the contract
 		c.Inc = mult
@@ -93,7 +93,10 @@ func newAlgoSUT(r *rng, algo, wrap string) *algoSUT {
 			lo = c.Queue
 		}
 		c.Initial = r.between(lo, c.Ceil) // precondition of C06/C07: initial >= queue allowance and >= minimum
-		s.smoothing = smooths[r.intn(4)]
+		if r.chance(1, 6) {
+			c.Initial = c.Ceil + r.between(1, 150)
+		}
+		s.smoothing = smooths[r.intn(len(smooths))]
 		interval := []int{limit.ProbeDisabled, 5, 20, 100}[r.intn(4)]
 		if interval > 0 {
 			c.ProbeMax = 2 * interval
@@ -114,10 +117,13 @@ func newAlgoSUT(r *rng, algo, wrap string) *algoSUT {
 		}
 	case "gradient2":
 		c.Ceil = []int{50, 200}[r.intn(2)]
-		c.Floor = r.between(1, 6)
+		c.Floor = r.between(1, 14)
 		c.Queue = r.between(1, 6)
 		c.Initial = r.between(c.Floor, c.Ceil)
-		s.smoothing = smooths[r.intn(4)]
+		if r.chance(1, 5) {
+			c.Initial = c.Ceil + r.between(1, 150) // the constructor does not bound the initial limit: the first updates bring it back
+		}
+		s.smoothing = smooths[r.intn(len(smooths))]
 		q := c.Queue
 		g, err := limit.NewGradient2Limit(c.Name, c.Initial, c.Ceil, c.Floor, func(int) int { return q }, s.smoothing, []int{5, 10, 50}[r.intn(3)], nil, s.reg)
 		if err != nil {
@@ -332,6 +338,12 @@ func TestLimitRandom(t *testing.T) {
 			return o
 		}
 		base := int64(1000)
+		if k%8 >= 4 && r.chance(1, 2) {
+			// a coarse or frozen clock at start-up: the very first samples carry a zero RTT, saturated
+			for j, nz := 0, r.between(1, 5); j < nz && !dead; j++ {
+				emit("free", 0, est+r.between(0, 2), r.chance(1, 6))
+			}
+		}
 		for j := 0; j < free && !dead; j++ {
 			if b, set := s.baseline(); set {
 				base = b
@@ -424,6 +436,9 @@ func TestLimitRandom(t *testing.T) {
 					// the library draws the probe countdown from an unseeded source: place a probe early in this run
 					s.grad.VerifSetResetCounter(r.between(2, 4))
 				}
+				if s.vegas != nil && r.chance(1, 2) {
+					s.vegas.VerifSetProbeJitter(1e-9) // the next sample - a drop - is a probe
+				}
 				for cnt < bound && est > cfg.Floor && !dead {
 					emit("droprun", rtt, est, true)
 					cnt++
@@ -431,6 +446,11 @@ func TestLimitRandom(t *testing.T) {
 				i++
 				w.write(J{"ev": "RunEnd", "trace": k, "i": i, "mode": "droprun", "est": est, "n": cnt, "bound": bound, "from": start})
 			}
+		}
+		// sustained overload without drops: saturated samples at a multiple of the RTT seen so far pin the estimate on its
+		// floor for a few hundred samples (where clamping and smoothing interact)
+		for j, hr := 0, int64(50000*(1+r.intn(40))); j < 260 && !dead; j++ {
+			emit("overload", hr, est+1, false)
 		}
 	}
 }
@@ -778,4 +798,44 @@ func TestNotifyAttack(t *testing.T) {
 		}
 	}
 	writeJSON(t, filepath.Join(outDir(t), "notify.json"), J{"scenarios": k, "second_sample_overtook_the_parked_notification": overtook})
+}
+
+// TestFunctionCases calls the real limit/functions (integer and float variants) for every case TLC printed from
+// spec/LimitFunctions.tla.
+func TestFunctionCases(t *testing.T) {
+	var mism []J
+	n := 0
+	for _, raw := range readNd(t, inFile(t, "function_cases.ndjson")) {
+		var c struct {
+			B     int `json:"b"`
+			N     int `json:"n"`
+			Log10 int `json:"log10"`
+			Sqrt  int `json:"sqrt"`
+		}
+		if err := json.Unmarshal(raw, &c); err != nil {
+			t.Fatal(err)
+		}
+		n++
+		got := func() (g J) {
+			defer func() {
+				if r := recover(); r != nil {
+					g = J{"panic": fmt.Sprint(r)}
+				}
+			}()
+			lf := functions.Log10RootFloatFunction(float64(c.B))
+			g = J{"log10": functions.Log10RootFunction(c.B)(c.N), "sqrt": functions.SqrtRootFunction(c.B)(c.N), "fixed": functions.FixedQueueSizeFunc(c.B)(c.N)}
+			// float variant: anywhere inside [n, n+1) the integer part of the step is the same
+			for _, frac := range []float64{0, 0.5, 0.999} {
+				v := lf(float64(c.N) + frac)
+				if int(math.Floor(v+1e-9)) != c.Log10 {
+					g["log10float"] = v
+				}
+			}
+			return g
+		}()
+		if got["panic"] != nil || got["log10"] != c.Log10 || got["sqrt"] != c.Sqrt || got["fixed"] != c.B || got["log10float"] != nil {
+			mism = append(mism, J{"case": c, "got": got})
+		}
+	}
+	writeJSON(t, filepath.Join(outDir(t), "function_cases.json"), J{"cases": n, "mismatches": mism})
 }
